@@ -242,7 +242,14 @@ def run(ctx):
                 with torch.no_grad():
                     first_batch = None
                     for ci in range(nctx):
-                        with oq.Calibration(momentum=moms[ci], streamline=streamline):
+                        dbg = bool(r.random() < 0.1)  # debug=True only prints; it must not change what is computed
+                        if dbg:
+                            ctx.count("contexts_with_debug")
+                        import contextlib
+                        import io as _io
+
+                        with contextlib.redirect_stdout(_io.StringIO()) if dbg else contextlib.nullcontext(), \
+                                oq.Calibration(momentum=moms[ci], streamline=streamline, debug=dbg):
                             rec.momentum = moms[ci]
                             for b in range(nb[ci]):
                                 # attention squares its input magnitude (q.k^T): keep the float model far from float16's
